@@ -51,7 +51,9 @@ def required(tier):
     cl += [f'invalid-load:{k}:set->set' for k in INVALID_KINDS]
     cl += ['valid-load:after-failed-load', 'valid-load:unset->set', 'valid-load:set->refused',
            'reset', 'read:unset-refused', 'read:set', 'mutate:set-refused',
-           'mutate:unset-refused', 'overlay:file+kwargs-nested']
+           'mutate:unset-refused', 'overlay:file+kwargs-nested',
+           'route:constructor:unset->set', 'route:constructor:set->refused',
+           'route:model_validate:unset->set', 'route:model_validate:set->refused']
     return {'classes': cl, 'evaluations': 5000}
 
 
@@ -212,10 +214,24 @@ class Machine:
         kwargs['path'] = list(self.search)
         kwargs['data_path_overrides'] = self.search[:2]
         expected = ref_merge(ref_merge(self.defaults, file_o), kw_o)
-        self.log.append(('valid-load', how, file_o, kw_o))
+        # the class is documented as a singleton ("only one instance can be created"; an
+        # instance is created "probably using the load method"): the other public routes to
+        # an instance are the constructor and model_validate with complete data
+        route = 'load' if how != 'kwargs' else rng.choice(['load', 'load', 'constructor',
+                                                           'model_validate'])
+        self.log.append(('valid-load', how, file_o, kw_o, route))
         was = self.state
         try:
-            Config.load(config_file=cfg_file, **kwargs)
+            if route == 'load':
+                Config.load(config_file=cfg_file, **kwargs)
+            else:
+                full = copy.deepcopy(expected)
+                full['path'] = list(self.search)
+                full['data_path_overrides'] = self.search[:2]
+                if route == 'constructor':
+                    Config(**full)
+                else:
+                    Config.model_validate(full)
             raised = None
         except Exception as e:  # noqa: BLE001
             raised = e
@@ -226,15 +242,19 @@ class Machine:
                           error=f'{type(raised).__name__}: {str(raised)[:300]}',
                           after_failed_load=self.last_failed)
             self.state = expected
-            self.rec.cls('valid-load:unset->set', f'valid-load:via-{how}')
+            self.rec.cls('valid-load:unset->set', f'valid-load:via-{how}',
+                         f'route:{route}:unset->set')
             if self.last_failed:
                 self.rec.cls('valid-load:after-failed-load')
             if nested:
                 self.rec.cls('overlay:file+kwargs-nested')
         else:
             if raised is None:
-                self.fail('loading while a configuration is active was accepted')
-            self.rec.cls('valid-load:set->refused',
+                self.fail('loading while a configuration is active was accepted'
+                          if route == 'load' else
+                          'a second configuration instance was created while one is active',
+                          route=route)
+            self.rec.cls('valid-load:set->refused', f'route:{route}:set->refused',
                          f'refusal-type:{type(raised).__name__}')
         self.last_failed = False
         self.observe('after valid-load')
